@@ -105,7 +105,8 @@ def prepare_rt_protos(out, prop):
         out["inconclusive"].append("runtime prototypes: the generated C headers could not be read by goto-cc: %s" % "; ".join(probs)[-800:])
         return False
     try:
-        txt, statics, _hs = rtprotos.generate(cm, REPO, [prop.lower()])
+        txt, statics, _hs, unvalidated = rtprotos.generate(cm, REPO, [prop.lower()], header_dir=os.path.join(d, "c"))
+        out["inconclusive"] += ["runtime prototypes: " + u for u in unvalidated]
     except Exception as e:       # a shape outside what the generator walks: no verdict, never an alarm
         out["inconclusive"].append("runtime prototypes: generator could not walk the declarations: %r" % e)
         return False
